@@ -4,7 +4,7 @@
 From Coq Require Import List Arith Bool ZArith String.
 From PV Require Import Base.Exn Base.Values Base.Ann Model.CheckerCfg Model.Checker Spec.Conforms
   Gen.CheckerTables Proofs.CheckerGood Proofs.CheckerRefine Proofs.CheckerSpec Proofs.CheckerTop
-  Base.PyCall Model.PedanticCfg Model.Pedantic Gen.Pedantic Proofs.PedanticBase Proofs.PedanticC06.
+  Base.PyCall Model.PedanticCfg Model.Pedantic Gen.Pedantic Proofs.PedanticBase Proofs.PedanticWitness Proofs.PedanticC06.
 Import ListNotations.
 
 Definition cfg := Gen.CheckerTables.checker_cfg.
@@ -51,6 +51,48 @@ Theorem C06_missing_return_annotation : forall check consumes f c bd, f_ret f = 
   never_ok (fst (run Gen.Pedantic.pedantic_cfg check consumes f c bd)).
 Proof. intros check consumes. exact (missing_return_annotation _ check consumes C06_generated_protocol_good). Qed.
 Print Assumptions C06_missing_return_annotation.
+
+(* a NAMED parameter / the return annotation is a generic without type arguments, with the modelled
+   assert_value_matches_type as the checker: the call never hands a value back, and for a parameter the body
+   does not run - for every signature, every call (any values, any call style), every body.  (What is raised is a
+   PedanticException by C08; it is PedanticTypeCheckException itself unless an earlier parameter fails first.) *)
+Lemma bare_always_rejects : forall ctx hook a, bare a = true -> always_rejects (assert_matches cfg ctx hook) a.
+Proof.
+  intros ctx hook a Hb v tv. destruct (C06_bare_rejected_for_all_values ctx hook a Hb v tv) as [r [H _]]. eauto.
+Qed.
+
+Theorem C06_bare_param_annotation : forall ctx hook consumes f c bd,
+  (exists p a, In p (filter (fun p => negb (is_star p)) (params_without_self f)) /\ p_ann p = Some a /\ bare a = true) ->
+  never_ok (fst (run Gen.Pedantic.pedantic_cfg (assert_matches cfg ctx hook) consumes f c bd))
+  /\ snd (run Gen.Pedantic.pedantic_cfg (assert_matches cfg ctx hook) consumes f c bd) = [].
+Proof.
+  intros ctx hook consumes f c bd [p [a [Hin [Hp Hb]]]].
+  apply (rejecting_param_annotation _ _ consumes C06_generated_protocol_good).
+  exists p, a. repeat split; try assumption. now apply bare_always_rejects.
+Qed.
+Print Assumptions C06_bare_param_annotation.
+
+Theorem C06_bare_return_annotation : forall ctx hook consumes f c bd a, f_ret f = Some a -> bare a = true ->
+  never_ok (fst (run Gen.Pedantic.pedantic_cfg (assert_matches cfg ctx hook) consumes f c bd)).
+Proof.
+  intros ctx hook consumes f c bd a Hr Hb.
+  apply (rejecting_return_annotation _ _ consumes C06_generated_protocol_good f c bd a Hr). now apply bare_always_rejects.
+Qed.
+Print Assumptions C06_bare_return_annotation.
+
+(* KNOWN FINDING K-C06-variadic (open): the statement is FALSE for a bare generic on a variadic parameter when no
+   extra value is supplied - the annotation is never looked at: def f( *args: list) -> None; f() runs the body *)
+Theorem C06_bare_variadic_refuted : exists f c bd,
+  (exists p, In p (params_without_self f) /\ is_varpos p = true /\ p_ann p = Some (ACls CList)) /\ bare (ACls CList) = true /\
+  run Gen.Pedantic.pedantic_cfg (assert_matches1 cfg (fun _ => None)) (fun _ _ => false) f c bd = (Ok VNone, [([(args_, BStar [])], [])]).
+Proof.
+  exists {| f_name := "f"%string; f_dotted := false; f_params := [par args_ VarPos (ACls CList) None];
+            f_bound := None; f_first_arg := None; f_ret := Some ANone; f_coroutine := false; f_generator := false;
+            f_text := tflags true false false true 1; f_setter := false; f_recv := false |},
+         (kwcall [] []), (returns VNone).
+  split; [eexists; split; [left; reflexivity | split; reflexivity]|]. split; [reflexivity|]. vm_compute. reflexivity.
+Qed.
+Print Assumptions C06_bare_variadic_refuted.
 
 (* non-vacuity: def f(a, b: int) -> None, first parameter without annotation *)
 Definition ex_text : text_flags := {| t_star_args := false; t_staticmethod := false; t_setter := false; t_pedantic := true; t_n_at := 1 |}.
